@@ -17,6 +17,7 @@ Verdict(r) ==
   LET c == Level(Build(Defs[r.d].cmd, NoInherit), r.path, 1) IN
   IF r.obs.panicked THEN "C12-panic"
   ELSE IF ~r.level_ok THEN "C12-help-of-wrong-level"
+  ELSE IF r.mode \in {"mirror_short", "mirror_long"} THEN (IF P12Mirror(c, r.obs) THEN "ok" ELSE "C12-help-tree-mirror")
   ELSE IF r.mode = "usage" THEN (IF P12Usage(c, r.obs) THEN "ok" ELSE "C12-usage-mentions-hidden")
   ELSE LET useLong == r.mode \in {"long", "direct_long"} IN
        IF r.obs.maxrun > RunBound(c) THEN "C12-unbounded-padding"
